@@ -184,6 +184,20 @@ def model_differential():
                 E.symbolic = False
             if x != text or r != d:
                 bad.append(("utf16", enc, text, x, r))
+    # fast path: non-negative dividend, constant power-of-two divisor
+    for a in [v for v in vals if v >= 0]:
+        for b in (1, 2, 8, 256, 1 << 64):
+            for f in (op.floordiv, op.mod):
+                n += 1
+                E.trail = []; E.begin_path(); E.symbolic = True
+                try:
+                    x = E.sym_int("x", 0, 1 << 130)
+                    E.add(x.t == a)
+                    got = conc(f(x, b))
+                finally:
+                    E.symbolic = False
+                if got != f(a, b):
+                    bad.append(("pow2 " + f.__name__, a, b, got))
     for text in ("A", "\xe9z", "\u20ac\x7f\x80", "\u07ff\u0800"):
         n += 1
         E.trail = []; E.begin_path(); E.symbolic = True
